@@ -1,4 +1,5 @@
 import JjModel.Model.Conflicts
+import JjModel.Props.C05
 import JjModel.Drv.Util
 /-!
   Driver handler for C05.
@@ -12,6 +13,10 @@ import JjModel.Drv.Util
               (`G` = `-` or `/`-separated groups `m.<l>.<r>` matching / `d.<l>.<r>` different)
   * `C05 parse <sides> <markerlen> <hex>` → `none` or hunks
   * `C05 choose <files>` → marker length;  `C05 eol <files>` → `lf` | `crlf`
+  * `C05 wf <sides> <files> <hunks>` → `1`/`0`: the hypotheses of `roundtrip_end_to_end_partial`
+      (`HunksWF` at the chosen marker length and `LinesFrom`) evaluated on a real `merge_hunks` output
+  * `C05 diffok <L,R,G>` → `1`/`0`: `DiffOK` (hypothesis `DiffFnOK` of the diff-style theorem) on one
+      real `ContentDiff::by_line` result
 -/
 namespace JjModel.Drv.C05
 open JjModel.Conflicts JjModel.Drv
@@ -75,6 +80,14 @@ def handle : List String → Option String
     match parseConflict input sides ml with
     | none => some "none"
     | some hs => some (showHunks hs)
+  | ["wf", sides, files, hunks] => do
+    let sides ← sides.toNat?
+    let files ← parseTerms files
+    let hunks ← parseHunks hunks
+    some (showBool (decide (JjModel.C05.RoundTripHyps files sides hunks)))
+  | ["diffok", entry] => do
+    let (l, r, g) ← parseEntry entry
+    some (showBool (decide (DiffOK g l r)))
   | ["choose", files] => do
     let files ← parseTerms files
     some (toString (chooseMarkerLen files))
